@@ -1415,13 +1415,9 @@ func (vx *Vaxis) Suspend() error {
 		return nil
 	}
 	vx.suspended = true
-	verifC10(vx, "suspend.flagged")
 	vx.parser.Close()
-	verifC10(vx, "suspend.signalled")
 	io.WriteString(vx.console, primaryAttributes)
-	verifC10(vx, "suspend.da1")
 	vx.parser.WaitClose()
-	verifC10(vx, "suspend.closed")
 
 	vx.disableModes()
 	vx.exitAltScreen()
